@@ -398,7 +398,7 @@ fn fuzz(ctx: &WorkerCtx, rep: &mut WorkerReport, rng: &mut Rng, state: &'static 
                     3 => ("eth_call".into(), json!([{"to": fz.st.tool, "data": hist::hx(&asm::tool_call(if rng.chance(1, 2) { asm::OP_CALL } else { asm::OP_STATIC }, &[asm::word_u64(a)], &input))}]), "precompile-via-contract"),
                     _ => {
                         let (ts, h, idx) = fz.open_block.clone().unwrap_or((50 + fz.st.n, fz.st.fresh_hash.clone(), 0));
-                        ("brc20_call".into(), json!({"from_pkscript": PK, "contract_address": pc_addr(a), "data": hist::hx(&input), "timestamp": ts, "hash": h, "tx_idx": idx, "inscription_id": format!("c09-pc-{}", fz.st.n), "inscription_byte_len": 1_000_000, "op_return_tx_id": hist::ZERO_HASH}), "precompile-executed")
+                        ("brc20_call".into(), json!({"from_pkscript": PK, "contract_address": pc_addr(a), "data": hist::hx(&input), "timestamp": ts, "hash": h, "tx_idx": idx, "inscription_id": format!("c09-pc-{}", fz.st.n), "inscription_byte_len": 100_000, "op_return_tx_id": hist::ZERO_HASH}), "precompile-executed")
                     }
                 }
             }
@@ -411,7 +411,9 @@ fn fuzz(ctx: &WorkerCtx, rep: &mut WorkerReport, rng: &mut Rng, state: &'static 
                         code[i] = (rng.next() & 0xff) as u8;
                     }
                 }
-                let len = *rng.pick(&[0u64, 1, 2, 10, 1000, 1_000_000, u64::MAX]);
+                // the allowance bounds the running time of looping code: keep it at <= 1.2e9 gas here
+                // (a saturated allowance with a looping program runs for minutes by design)
+                let len = *rng.pick(&[0u64, 1, 2, 10, 1000, 100_000]);
                 let (ts, h, idx) = fz.open_block.clone().unwrap_or((50 + fz.st.n, fz.st.fresh_hash.clone(), 0));
                 match rng.below(3) {
                     0 => ("brc20_deploy".into(), json!({"from_pkscript": PK, "data": hist::hx(&code), "timestamp": ts, "hash": h, "tx_idx": idx, "inscription_id": format!("c09-prog-{}", fz.st.n), "inscription_byte_len": len, "op_return_tx_id": hist::ZERO_HASH}), "program-deploy"),
